@@ -165,52 +165,6 @@ Section Hist.
   | r_getnode S ss path g ss' :
       reachable S ss -> sess_getnode H PathScheme S ss path = (g, ss') -> reachable S ss'.
 
-  Theorem reachable_sinv S ss : reachable S ss -> exists F, sinv H S ss F /\ gsizes F.
-  Proof.
-    induction 1 as [ss O|S ss r ons ss2 Rch IH C O|S ss key v ss' Rch IH OK U|S ss key v ss' Rch IH BK G|S ss path g ss' Rch IH G].
-    - destruct (open_sinv H H_len H_inj_empty [] _ NEmpty (store_ok_empty H)) as (ss0 & O0 & SI).
-      rewrite O in O0. inversion O0; subst ss0. exists NEmpty. split; [exact SI|].
-      intros k v L. rewrite lk_empty in L. discriminate.
-    - destruct IH as (F & SI & Sz).
-      destruct (open_sinv H H_len H_inj_empty _ _ F (commit_store_ok H H_len S ss F r ons SI C)) as (ss0 & O0 & SI0).
-      rewrite O in O0. inversion O0; subst ss0. exists F. split; assumption.
-    - destruct IH as (F & SI & Sz).
-      destruct (sess_update_sinv S ss F key v ss' SI Sz OK U) as (F' & SI' & Sz' & _).
-      exists F'. split; assumption.
-    - destruct IH as (F & SI & Sz).
-      destruct (sess_get_sinv H H_len H_inj_empty S ss F key v ss' SI BK G) as [SI' _].
-      exists F. split; assumption.
-    - destruct IH as (F & SI & Sz). exists F. split; [|exact Sz].
-      eapply sess_getnode_sinv; eassumption.
-  Qed.
-
-  (* C07 commit_reads_back, path scheme, FULL over multi-generation histories:
-     committing any reachable session and reopening at the returned root from the
-     updated store succeeds, and every byte key reads there exactly what it read
-     in the in-memory trie before the commit *)
-  Theorem commit_reads_back S ss r ons key :
-    reachable S ss -> commit H ss = Some (r, ons) -> forallb byteb key = true ->
-    exists ss2,
-      open_trie H PathScheme (applied S ons) r = TOk ss2 /\
-      exists v t1 d1 ev1 t2 d2 ev2,
-        trie_get (resolve_of H PathScheme S) (s_root ss) key = TOk (v, t1, d1, ev1) /\
-        trie_get (resolve_of H PathScheme (applied S ons)) (s_root ss2) key = TOk (v, t2, d2, ev2).
-  Proof.
-    intros Rch C BK. destruct (reachable_sinv S ss Rch) as (F & SI & _).
-    destruct (commit_reads_back_sinv H H_len H_inj_empty S ss F r ons key SI C BK)
-      as (ss2 & O & v & t1 & d1 & ev1 & t2 & d2 & ev2 & G1 & G2 & _).
-    exists ss2. split; [exact O|]. exists v, t1, d1, ev1, t2, d2, ev2. split; assumption.
-  Qed.
-
-  (* and the store after the commit holds exactly-enough: every hashed node of the
-     ground trie is stored at its path (the "none missing" half of commit_exact_path) *)
-  Theorem commit_none_missing S ss r ons :
-    reachable S ss -> commit H ss = Some (r, ons) ->
-    exists F, store_ok H (applied S ons) r F.
-  Proof.
-    intros Rch C. destruct (reachable_sinv S ss Rch) as (F & SI & _).
-    exists F. eapply commit_store_ok; eassumption.
-  Qed.
 End Hist.
 
 (* ------------------------------------------------------------------ *)
